@@ -549,6 +549,7 @@ pub struct G<'a> {
     pub feats: BTreeSet<String>,
     /// currently generating sub-patterns of a tuple pattern
     in_tuple_pat: bool,
+    no_whole_bind: bool,
 }
 
 const NAMES: [&str; 6] = ["A", "B", "C", "D", "P", "Q"];
@@ -568,7 +569,7 @@ fn bind_var(g: &mut G, binds: &mut Vec<Bind>, ty: &GTy) -> String {
 
 impl<'a> G<'a> {
     pub fn new(r: &'a mut Rng) -> Self {
-        G { r, fresh: 0, feats: BTreeSet::new(), in_tuple_pat: false }
+        G { r, fresh: 0, feats: BTreeSet::new(), in_tuple_pat: false, no_whole_bind: false }
     }
     fn feat(&mut self, s: &str) {
         self.feats.insert(s.to_string());
@@ -793,7 +794,20 @@ impl<'a> G<'a> {
                 }
             }
             let v = vs[self.r.usize(vs.len())].clone();
-            return self.pat(&v, depth, binds, allow_bind);
+            // the position's type is the union: a binder of the WHOLE value here must not be
+            // recorded at the variant's type (inner binders are fine)
+            return match &v {
+                GTy::Tup(name, fs) if !fs.is_empty() => {
+                    let saved = (self.in_tuple_pat, self.no_whole_bind);
+                    self.in_tuple_pat = true;
+                    self.no_whole_bind = true;
+                    let res = self.tuple_pat(&v, name, fs, depth, binds, allow_bind);
+                    self.in_tuple_pat = saved.0;
+                    self.no_whole_bind = saved.1;
+                    res
+                }
+                _ => self.pat(&v, depth, binds, false),
+            };
         }
         match ty {
             GTy::Int => match self.r.below(10) {
@@ -854,11 +868,14 @@ impl<'a> G<'a> {
         {
             {
                 let k = self.r.below(12);
-                if k == 0 && allow_bind {
+                let whole_ok = !self.no_whole_bind;
+                self.no_whole_bind = false;
+                if k == 0 && allow_bind && whole_ok {
                     return (bind(self, binds, ty), false);
                 }
-                if k == 1 {
-                    // the type itself as a pattern
+                if k == 1 && !fs.iter().any(|(_, t)| t.is_union_like()) {
+                    // the type itself as a pattern (a union-typed field would be an alternation
+                    // inside a tuple pattern: gate N11)
                     self.feat("pat:type-ref");
                     return (ty.src(), false);
                 }
@@ -1120,6 +1137,18 @@ impl<'a> G<'a> {
                 // a bare whole-value binder on a narrowed recursive scrutinee (gate N6)
                 binds.retain(|b| b.name != p);
                 p = "_".into();
+            }
+            if matches!(ty, GTy::List(_) | GTy::Tree(_)) && binds.len() == 1 {
+                // gate (finding N12): a pattern with exactly one binder on a recursive scrutinee
+                // types the binder as the whole narrowed cell; add an unused second binder, or
+                // drop the binder
+                if p.contains(WILD) {
+                    let extra = self.var("u");
+                    p = p.replacen(WILD, &extra, 1);
+                } else {
+                    let b = binds.remove(0);
+                    p = p.replace(&b.name, WILD);
+                }
             }
             for i in Self::liberal_cover(&p, &variants) {
                 covered.insert(i);
